@@ -4,7 +4,27 @@ From Refinery Require Export Lib.Base Model.Metrics.
 (* c_obs: the result of every MGet, in order (None = not found; values are integral floats) *)
 (* c_race: names whose first operations were performed by several goroutines released together
    (fresh names, never registered or registered concurrently) *)
-Record case := { c_ops : list mop; c_race : list N; c_obs : list (option Z) }.
+(* one metric of the dynsampler recorder phase: the sampler's value when the recorder was registered,
+   the snapshots GetMetrics handed out (in call order; the scripted source only grows), and reads of
+   the store taken while no goroutine was inside RecordMetrics, each with the number of snapshots
+   handed out before it. Counters are stored as deltas, gauges as the last value. *)
+Record recobs := { ro_counter : bool; ro_init : Z; ro_snaps : list Z; ro_reads : list (nat * Z);
+                   ro_all : list Z }.   (* every read in time order, also those taken while a goroutine was parked inside GetMetrics *)
+Record case := { c_ops : list mop; c_race : list N; c_obs : list (option Z); c_rec : list recobs }.
+
+(* with the snapshot taken under the mutex, snapshots are applied in the order they were handed out
+   (Proofs/Recorder.v): after k of them the store shows the k-th *)
+Definition rec_expected (r : recobs) (k : nat) : Z :=
+  let v := match k with O => ro_init r | S j => nth j (ro_snaps r) (ro_init r) end in
+  if ro_counter r then v - ro_init r else (match k with O => 0 | _ => v end).
+Definition rec_agrees (r : recobs) : bool :=
+  forallb (fun kv => snd kv =? rec_expected r (fst kv)) (ro_reads r).
+Fixpoint nondecr (l : list Z) : bool :=
+  match l with a :: ((b :: _) as r) => (a <=? b) && nondecr r | _ => true end.
+Definition rec_monitor (r : recobs) : codes :=
+  if ro_counter r
+  then (if nondecr (ro_all r) && rec_agrees r then [] else [17%N])      (* never decreases; quiescent reads show the latest snapshot *)
+  else (if rec_agrees r then [] else [17%N]).
 
 Definition model_agrees (c : case) : bool :=
   list_eqb (option_eqb Z.eqb) (snd (mrun false minit (c_ops c))) (c_obs c).
@@ -53,4 +73,5 @@ Fixpoint mmon (race : list N) (pre_rev : list mop) (ops : list mop) (obs : list 
   end.
 
 Definition check (c : case) : codes :=
-  (if model_agrees c then [] else [code_mismatch]) ++ mmon (c_race c) [] (c_ops c) (c_obs c).
+  (if model_agrees c && forallb rec_agrees (c_rec c) then [] else [code_mismatch]) ++
+  mmon (c_race c) [] (c_ops c) (c_obs c) ++ flat_map rec_monitor (c_rec c).
